@@ -455,6 +455,14 @@ func ewRun(c *core.Ctx, sp ewSpec) *ewObs {
 		if sp.Mode == "reuseA-same" {
 			opts = append(opts, tensor.AsSameType())
 		}
+	case "incrB":
+		// the increment destination is the second operand: b += a op b
+		if o.B == nil {
+			o.precond = "no-second-tensor"
+			return o
+		}
+		o.destInit = o.B.op.M
+		opts = append(opts, tensor.WithIncr(o.B.op.D))
 	case "reuseB", "reuseB-same":
 		if o.B == nil {
 			o.precond = "no-second-tensor"
@@ -774,7 +782,7 @@ func ewJudge(c *core.Ctx, o *ewObs, pol ewPolicy) bool {
 	switch sp.Mode {
 	case "unsafe", "reuseA", "reuseA-same":
 		dest, destName = o.A, "a"
-	case "reuseB", "reuseB-same":
+	case "reuseB", "reuseB-same", "incrB":
 		dest, destName = o.B, "b"
 	case "reuse", "incr", "reuse-bool", "reuse-same", "reuse-unfit":
 		dest, destName = o.D, "dest"
@@ -783,7 +791,7 @@ func ewJudge(c *core.Ctx, o *ewObs, pol ewPolicy) bool {
 	switch sp.Mode {
 	case "reuseA", "reuseA-same":
 		destLay = sp.LayA
-	case "reuseB", "reuseB-same":
+	case "reuseB", "reuseB-same", "incrB":
 		destLay = sp.LayB
 	}
 	if sp.Mode == "reuse-unfit" {
@@ -810,7 +818,7 @@ func ewJudge(c *core.Ctx, o *ewObs, pol ewPolicy) bool {
 			viol("outside-"+name+"-changed", "bytes outside the tensor untouched", fmt.Sprintf("%d positions, first %v", len(t.outside), t.outside[:min(len(t.outside), 6)]))
 			return true
 		}
-		if t == o.A && sp.Mode == "incr" && sp.Family == "arith" && len(o.want.V) == 1 && t.metaDif == "" && pol.eq(t.after.V[0], o.want.V[0]) {
+		if t == o.A && (sp.Mode == "incr" || sp.Mode == "incrB") && sp.Family == "arith" && len(o.want.V) == 1 && t.metaDif == "" && pol.eq(t.after.V[0], o.want.V[0]) {
 			// deviation hypothesis (KF): with single-element operands the increment kernels compute a op b in a's own buffer
 			c.Violation(core.Sig("incr", "single-element", "operand-a-overwritten-with-result"), sp.caseKey(), sp.desc(), "a untouched", fmt.Sprint("a became ", t.after.V[0]))
 			return true
@@ -867,7 +875,7 @@ func ewJudge(c *core.Ctx, o *ewObs, pol ewPolicy) bool {
 		}
 	}
 	want := o.want
-	if sp.Mode == "incr" {
+	if sp.Mode == "incr" || sp.Mode == "incrB" {
 		v := make([]interface{}, len(want.V))
 		for i := range v {
 			v[i], _ = model.Bin("Add", o.destInit.V[i], want.V[i])
